@@ -59,6 +59,7 @@ class Clause:
     budget: dict = field(default_factory=lambda: {"quick": 200, "thorough": 5000})
     enumerate: Callable[[str], Iterable[Any]] | None = None  # exhaustive domain for a tier
     enum_size: Callable[[str], int] | None = None
+    enum_per_shard: int = 2000
     enum_sharded: bool = False  # enumerate(tier, shard, nshards) yields only that shard's cases
     floors: dict = field(default_factory=dict)  # label -> minimum fraction of evaluations
     max_shards: int = 16
